@@ -531,6 +531,12 @@ func main() {
 				c.Failf("long-segment-distance", "%s = %v, exact %v (relative error %.3g) | a=%v b=%v q=%v", what, got, want, math.Abs(got-want)/want, a, b, q)
 			}
 		}
+		// point-to-point: the squared distance of lattice points is an exact integer, the distance its square root
+		if d2, ex := planar.DistanceSquared(fpt(a), fpt(q)), float64((a[0]-q[0])*(a[0]-q[0])+(a[1]-q[1])*(a[1]-q[1])); d2 != ex || planar.DistanceSquared(fpt(q), fpt(a)) != ex {
+			c.Failf("point-distance", "DistanceSquared(%v, %v) = %v, exact %v", a, q, d2, ex)
+		} else if d := planar.Distance(fpt(a), fpt(q)); math.Abs(d-math.Sqrt(ex)) > 1e-12*math.Sqrt(ex) {
+			c.Failf("point-distance", "Distance(%v, %v) = %v, exact %v", a, q, d, math.Sqrt(ex))
+		}
 		check("DistanceFromSegment", planar.DistanceFromSegment(fpt(a), fpt(b), fpt(q)))
 		if d2 := planar.DistanceFromSegmentSquared(fpt(a), fpt(b), fpt(q)); math.Abs(d2-f64(want2)) > 2e-9*math.Max(1, f64(want2)) {
 			c.Failf("long-segment-distance", "DistanceFromSegmentSquared = %v, exact %v | a=%v b=%v q=%v", d2, f64(want2), a, b, q)
